@@ -214,7 +214,14 @@ func TestVerifC09Span(t *testing.T) {
 			// The real API calls rotate1 when the file is opened and when the rotation timer fires at
 			// (or, if the timer is late, after) the recorded end. Mid-span the clock simply advances.
 			callRotate := true
-			switch rapid.IntRange(0, 5).Draw(t, "advKind") {
+			switch rapid.IntRange(0, 6).Draw(t, "advKind") {
+			case 6:
+				// the process sleeps for a year or several (a suspended machine, a forgotten daemon): the next rotation
+				// comes on a day with the same, or nearly the same, day of the year as the day the file was begun
+				days := rapid.SampledFrom([]int{365, 366, 364, 367, 730, 731, 1095, 1096, 1461, 3653}).Draw(t, "sleepDays")
+				target := f.timeBegin.AddDate(0, 0, days).Add(time.Duration(rapid.IntRange(0, 86399).Draw(t, "sleepSec")) * time.Second)
+				adv = target.Sub(now)
+				vstats.Label("sleptForYears")
 			case 0:
 				adv = curEnd.Sub(now) // exactly at the end
 				boundary = true
